@@ -406,7 +406,8 @@ pub fn run_c03(run: &mut Run) {
         }
         v
     });
-    run.rule = "every fault snippet x every composition of statement contexts up to the depth bound x every placement x every type-compatible expression context; a case counts only if its well-typed twin compiles in the same context; distinct by program text".into();
+    crate::engines::stdfaults::run_std(&mut run.stats, crate::engines::stdfaults::C03_STD, false, "faults");
+    run.rule = "every fault snippet x every composition of statement contexts up to the depth bound x every placement x every type-compatible expression context; plus 48 mismatches against standard-library signatures (arguments, results, callbacks, payloads of returned Maybe values) x 7 contexts with std bundled; a case counts only if its well-typed twin compiles in the same context; distinct by program text".into();
     run.assumptions = vec![
         "each snippet is a definite mismatch between literals / declared types, directly or through exactly one (for `via-two-hops`: two) unannotated hop: an untyped helper function, variables, tuple elements, a local closure, the generic identity, instances of one named generic".into(),
         "cases whose control does not compile are not counted (0 on the unchanged tree)".into(),
@@ -416,6 +417,9 @@ pub fn run_c03(run: &mut Run) {
 pub fn replay(case: &serde_json::Value) -> Option<(String, String)> {
     let ft = case["files"][MAIN].as_str()?;
     let tt = case["twin"].as_str()?;
+    if case["no_std"].as_bool() == Some(false) {
+        return crate::engines::stdfaults::judge_std(ft, tt).0;
+    }
     judge_texts(ft, tt).fail
 }
 
@@ -520,7 +524,8 @@ pub fn run_c04(run: &mut Run) {
         }
         v
     });
-    run.rule = "every forbidden construct (assignment to constants; impurity inside pu functions; impure values for pu types) x every composition of statement contexts up to the depth bound x every placement (pure placements and pure-legal contexts for the in-pure group); counted only if the permitted twin compiles in the same context; distinct by program text".into();
+    crate::engines::stdfaults::run_std(&mut run.stats, crate::engines::stdfaults::C04_STD, true, "faults");
+    run.rule = "16 library cases inside pu functions (impure callbacks for the library's pure higher-order functions, calls of impure library functions) x 4 pure contexts with std bundled; every forbidden construct (assignment to constants; impurity inside pu functions; impure values for pu types) x every composition of statement contexts up to the depth bound x every placement (pure placements and pure-legal contexts for the in-pure group); counted only if the permitted twin compiles in the same context; distinct by program text".into();
     run.assumptions = vec!["cases whose control does not compile are not counted (0 on the unchanged tree)".into()];
 }
 
@@ -794,7 +799,8 @@ pub fn run_c05(run: &mut Run) {
             run.stats.fail(Failure { sig, preds: vec![format!("snippet:{}", id)], detail, case: json!({"engine": "faults-files", "files": fm, "twin_files": tm}), size: 10 });
         }
     }
-    run.rule = "every blob declaration with a non-empty field set over {a,b,c} and every enum with a non-empty variant set over {A,B,C}, plain and generic, x every shape fault (missing/unknown/absent field, unknown/unmatched/extra variant, tuple index and length, externblob instance, break/continue outside a loop of the same function) x every composition of statement contexts up to the depth bound x every placement, plus the entry-point rules as whole programs; counted only if the permitted twin compiles; distinct by program text".into();
+    crate::engines::stdfaults::run_std(&mut run.stats, crate::engines::stdfaults::C05_STD, false, "faults");
+    run.rule = "20 shape faults on values handed out by the standard library (payloads of pop / get / last / find / dict.get, callback parameters of map / filter / fold, the library's Maybe) x 7 contexts with std bundled; every blob declaration with a non-empty field set over {a,b,c} and every enum with a non-empty variant set over {A,B,C}, plain and generic, x every shape fault (missing/unknown/absent field, unknown/unmatched/extra variant, tuple index and length, externblob instance, break/continue outside a loop of the same function) x every composition of statement contexts up to the depth bound x every placement, plus the entry-point rules as whole programs; counted only if the permitted twin compiles; distinct by program text".into();
     run.assumptions = vec!["cases whose control does not compile are not counted".into(), "that accepted programs load as Lua is checked by C06 on the same families".into()];
 }
 
